@@ -91,6 +91,19 @@ STYLES['modern'] = (
     'ints / tuples; `itertools.pairwise` / `zip(..., strict=True)` / `itertools.batched` where exactly equivalent; `typing` annotations; `pathlib`-free. Keep every normalisation, floor, '
     'copy, conjugation, transpose and reshape that exists - respell them, do not drop, duplicate or weaken them; keep dtypes and shapes of all results identical.')
 
+STYLES['axes'] = (
+    'Apply 14 to 20 independent, realistic, BEHAVIOUR-PRESERVING edits that change HOW AXES, SHAPES, INDICES AND LOOP BOUNDS ARE COMPUTED, spread over as many of the listed functions as '
+    'possible - always CORRECTLY. Use for example: one transpose replaced by two or three sequential np.moveaxis / np.swapaxes calls (re-indexing an axis number after another axis has '
+    'been moved, with the right condition); negative axis numbers normalised to non-negative ones (axis % x.ndim) or the other way round and used consistently; `x.ndim - 1` for -1; '
+    'axis tuples built with range / list arithmetic / sorted / comprehension instead of literals; permutations built by list.remove / insert / append; shapes computed with math.prod, '
+    'np.prod(..., dtype=int), functools.reduce, divmod, `-(-n // b)` for ceil, `n // b + (n % b > 0)`; reshape targets written with -1 where exactly one extent can be inferred; '
+    'flattening leading axes and restoring them written once as a helper; loops over np.ndindex(*shape) <-> itertools.product(*map(range, shape)) <-> a flat index with np.unravel_index / '
+    'divmod; loops over an axis processed in BLOCKS that cover every index exactly once (range(0, n, b) with min(start + b, n), or ceil-many blocks) where the per-index results do not '
+    'interact; range(n) <-> range(1, n + 1) with index - 1 <-> reversed order where the order does not matter; enumerate(start=1); slices a[..., :k] / a[..., -k:] computed from lengths; '
+    'np.take / np.take_along_axis / np.compress / boolean masks for fancy indexing; np.expand_dims with tuple axes <-> None-indexing <-> reshape; np.squeeze(axis=...) <-> [..., 0]; '
+    'keepdims <-> re-inserting the axis; np.broadcast_to / np.broadcast_shapes for explicit broadcasting; np.einsum index letters renamed / reordered consistently. Keep every '
+    'normalisation, floor, copy, conjugation and guard that exists; keep dtypes and shapes of all results identical.')
+
 TEMPLATE = '''You are helping to evaluate a static-analysis based verification tool for the Python library fgnt/pb_bss (EM mixture models, beamformers, permutation alignment, masks, metrics). The tool must NOT raise alarms on code whose behaviour is unchanged. Your job is to act as a careful maintainer who REFACTORS code WITHOUT changing behaviour, so that we can test the tool for false alarms.
 
 Work ONLY inside your own scratch git worktree of the library: {wt} (package directory {wt}/pb_bss). Do NOT read or write anything under /verif or /repo. Do not commit. Never use `git stash` (it is shared between worktrees).
